@@ -258,3 +258,39 @@ func init() {
 		return 0
 	}
 }
+
+func init() {
+	tools["dump-peg"] = func(args []string) int {
+		r := loadRepo()
+		b, _ := os.ReadFile(r.Root + "/peg.peg")
+		g, err := parsePeg("peg.peg", string(b))
+		if err != nil {
+			fmt.Println(err)
+			return 1
+		}
+		var show func(e *pexpr) string
+		show = func(e *pexpr) string {
+			var ks []string
+			for _, k := range e.Kids {
+				ks = append(ks, show(k))
+			}
+			switch e.Op {
+			case "name":
+				return e.S
+			case "lit":
+				return fmt.Sprintf("%q", e.S)
+			case "action":
+				return "{" + strings.TrimSpace(e.S) + "}"
+			case "class":
+				return fmt.Sprintf("class%v", e.Ranges)
+			}
+			return e.Op + "(" + strings.Join(ks, " ") + ")"
+		}
+		for _, rl := range g.Rules {
+			if len(args) == 0 || args[0] == rl.Name {
+				fmt.Println(rl.Name, "<-", show(rl.Expr))
+			}
+		}
+		return 0
+	}
+}
